@@ -55,6 +55,7 @@ func main() {
 				continue
 			}
 			var stack []string
+			var curFn *ast.FuncDecl
 			ast.Inspect(f, func(n ast.Node) bool {
 				switch x := n.(type) {
 				case *ast.FuncDecl:
@@ -63,10 +64,36 @@ func main() {
 						fn = types.ExprString(x.Recv.List[0].Type) + "." + fn
 					}
 					stack = []string{fn}
+					curFn = x
 				case *ast.RangeStmt:
 					if t := p.TypesInfo.TypeOf(x.X); t != nil {
 						if _, ok := t.Underlying().(*types.Map); ok {
-							sites = append(sites, Site{rel, cur(stack), "range-map", types.ExprString(x.X)})
+							// what, if anything, puts the collected keys into a node-independent order
+							// afterwards: the sort calls of the enclosing function, by name
+							var sorts []string
+							if curFn != nil && curFn.Body != nil {
+								ast.Inspect(curFn.Body, func(m ast.Node) bool {
+									if c, ok := m.(*ast.CallExpr); ok {
+										if sel, ok := c.Fun.(*ast.SelectorExpr); ok {
+											if id, ok := sel.X.(*ast.Ident); ok {
+												if pn, ok := p.TypesInfo.Uses[id].(*types.PkgName); ok {
+													if ip := pn.Imported().Path(); ip == "sort" || ip == "slices" || strings.HasSuffix(ip, "/slices") {
+														sorts = append(sorts, ip+"."+sel.Sel.Name)
+													}
+												}
+											}
+										}
+									}
+									return true
+								})
+							}
+							expr := types.ExprString(x.X)
+							if len(sorts) > 0 {
+								expr += " ; ordered by " + strings.Join(sorts, ", ")
+							} else {
+								expr += " ; unordered"
+							}
+							sites = append(sites, Site{rel, cur(stack), "range-map", expr})
 						}
 					}
 				case *ast.GoStmt:
